@@ -1,18 +1,129 @@
-(* C19/Props.v -- pinned property theorems; nothing but statements closed by `exact`. *)
+(* C19/Props.v -- pinned property theorems; nothing but statements closed by `exact`.
+   `hash` (SHA-256 in the implementation) is universally quantified with NO assumption: where
+   content addressing matters the statement is in collision-or form, the collision being between
+   two chunk contents actually stored during the run (`seen`).  Chunk size: any cs > 0. *)
 From NV.Common Require Import Base.
-From NV.C19 Require Import Model Proofs.
+From NV.C19 Require Import Model Proofs Inst.
+From NV.gen Require Import Gen_C19.
 Open Scope N_scope.
 
-(* Chunker::chunk loses and invents nothing, for every chunk size > 0 and every input
-   (sizes 0, 1, n-1, n, n+1, many are instances) *)
+(* grun / gstep: the model instantiated with the decision expressions regenerated from gc.rs, integrity.rs, streaming.rs *)
+Notation grun hash cs min_age :=
+  (run hash gen_collectable gen_min_created gen_rdec gen_rinc gen_fgc_counts_writers gen_repair_counts_writers cs min_age).
+Notation gstep hash cs min_age :=
+  (step hash gen_collectable gen_min_created gen_rdec gen_rinc gen_fgc_counts_writers gen_repair_counts_writers cs min_age).
+
+(* ---- the chunker ---- *)
 Theorem C19_split_concat : forall (n : nat) (d : list N), (0 < n)%nat -> concat (split n d) = d.
 Proof. exact split_concat. Qed.
 
-(* every piece is non-empty and at most n long; every piece but the last is exactly n long *)
 Theorem C19_split_sizes : forall (n : nat) (d : list N), (0 < n)%nat ->
   Forall (fun p => (0 < length p <= n)%nat) (split n d) /\
   forall ps q, split n d = ps ++ [q] -> Forall (fun p => length p = n) ps.
 Proof. exact split_sizes. Qed.
 
+(* ---- reading returns the bytes written: every program, every artifact id ----
+   `srun sinit ops` is the specification: artifacts are byte strings; put/open/write/finish/delete
+   do the obvious thing, every other operation does nothing. *)
+Theorem C19_reads_return_written : forall (hash : list N -> N) (cs : nat) (min_age : N) (ops : list op),
+  (0 < cs)%nat ->
+  let s := grun hash cs min_age init ops in
+  (exists x y, In x (seen s) /\ In y (seen s) /\ x <> y /\ hash x = hash y)
+  \/ forall id,
+       get s id = sget (srun sinit ops) id /\
+       verify hash s id = match aget (sarts (srun sinit ops)) id with Some _ => RBool true | None => RErr E_NOTFOUND end.
+Proof. exact g_reads. Qed.
+
+(* what the specification says for a one-shot put and for a stream under ANY partition into writes
+   (after any history ops0; empty writes allowed; sizes 0, 1, cs-1, cs, cs+1, many are instances) *)
+Theorem C19_spec_put : forall ops0 x d,
+  sget (srun sinit (ops0 ++ [OPut (x :: d)])) (snext (srun sinit ops0)) = RBytes (x :: d).
+Proof. exact g_spec_put. Qed.
+
+Theorem C19_spec_stream_any_partition : forall ops0 (ws : list (list N)),
+  let n := snext (srun sinit ops0) in
+  sget (srun sinit (ops0 ++ OOpen :: map (OWrite n) ws ++ [OFinish n])) n = RBytes (concat ws).
+Proof. exact g_spec_stream. Qed.
+
+(* ---- reference counts ---- in every reachable state the stored count of every chunk is the number of
+   times artifacts and unfinished writers list it, and every listed chunk exists *)
+Theorem C19_refcount_invariant : forall (hash : list N -> N) (cs : nat) (min_age : N) (ops : list op),
+  (0 < cs)%nat ->
+  let s := grun hash cs min_age init ops in
+  (forall k c, aget (chunks s) k = Some c -> crefs c = count k (art_refs s) + count k (wr_refs s)) /\
+  (forall k, 0 < count k (art_refs s) + count k (wr_refs s) -> aget (chunks s) k <> None) /\
+  NoDup (map fst (chunks s)).
+Proof. exact g_refcount. Qed.
+
+(* ---- delete: the bytes of every other artifact are untouched (any state whatsoever) ---- *)
+Theorem C19_delete_leaves_others : forall (hash : list N -> N) (cs : nat) (min_age : N) s id id',
+  id <> id' -> get (fst (gstep hash cs min_age s (ODelete id))) id' = get s id'.
+Proof. exact g_delete. Qed.
+
+(* ---- gc / full_gc / repair never remove (or change the bytes of) a chunk an existing artifact lists ---- *)
+Theorem C19_collect_keeps_referenced : forall (hash : list N -> N) (cs : nat) (min_age : N) (ops : list op) o id ar k,
+  (0 < cs)%nat -> is_collect o = true ->
+  let s := grun hash cs min_age init ops in
+  aget (arts s) id = Some ar -> In k (achunks ar) ->
+  exists c c', aget (chunks s) k = Some c /\ aget (chunks (fst (gstep hash cs min_age s o))) k = Some c' /\ cdata c' = cdata c.
+Proof. exact g_collect_keeps. Qed.
+
+Theorem C19_collect_preserves_reads : forall (hash : list N -> N) (cs : nat) (min_age : N) (ops : list op) o id,
+  (0 < cs)%nat -> is_collect o = true ->
+  let s := grun hash cs min_age init ops in
+  get (fst (gstep hash cs min_age s o)) id = get s id.
+Proof. exact g_collect_reads. Qed.
+
+(* ---- after all artifacts are deleted (and no upload is open) a full collection leaves no chunks ---- *)
+Theorem C19_full_gc_empties : forall (hash : list N -> N) (cs : nat) (min_age : N) s,
+  arts s = [] -> writers s = [] -> chunks (fst (gstep hash cs min_age s OFullGc)) = [].
+Proof. exact g_full_gc_empties. Qed.
+
+(* ---- verify ---- (it succeeds on every undamaged artifact: second conjunct of C19_reads_return_written) *)
+Theorem C19_verify_reports_missing : forall (hash : list N -> N) s id ar k,
+  aget (arts s) id = Some ar -> In k (achunks ar) -> verify hash (remove_chunk s k) id = RErr E_CHUNKMISSING.
+Proof. exact g_verify_missing. Qed.
+
+(* whatever happened to the chunk table (cks' arbitrary): verify answers true only if the bytes that now
+   read back are the bytes written, or they are a different string with the same whole-artifact digest *)
+Theorem C19_verify_detects_alteration : forall (hash : list N -> N) (cs : nat) (min_age : N) (ops : list op) id d cks',
+  (0 < cs)%nat ->
+  let s := grun hash cs min_age init ops in
+  (exists x y, In x (seen s) /\ In y (seen s) /\ x <> y /\ hash x = hash y) \/
+  (aget (sarts (srun sinit ops)) id = Some d ->
+   let s' := St cks' (arts s) (writers s) (next_id s) (clock s) (seen s) in
+   verify hash s' id = RBool true ->
+   get s' id = RBytes d \/ exists rb, get s' id = RBytes rb /\ rb <> d /\ hash rb = hash d).
+Proof. exact g_verify_alter. Qed.
+
+(* ---- non-vacuity, and what failed before the repair ---- *)
+Definition toy_hash (d : list N) : N := fold_left (fun a x => a * 256 + x + 1) d 0.
+
+Example C19_run_nonvacuous :
+  let ops := [OPut [1; 2; 3; 4; 5]; OOpen; OWrite 1 [1; 2]; OWrite 1 []; OWrite 1 [3; 4; 5; 9]; OFullGc; ORepair;
+              OFinish 1; ODelete 0; OAdvance 5000; OGc [toy_hash [1;2;3;4]; toy_hash [5]; toy_hash [5; 9]]; OFullGc] in
+  let s := grun toy_hash 4%nat 1500 init ops in
+  get s 1 = RBytes [1; 2; 3; 4; 5; 9] /\ get s 0 = RErr E_NOTFOUND /\ length (chunks s) = 2%nat
+  /\ sget (srun sinit ops) 1 = RBytes [1; 2; 3; 4; 5; 9].
+Proof. vm_compute. repeat split; reflexivity. Qed.
+
+(* F-C19-inflight: with a full_gc that does not count unfinished writers (the code before the repair)
+   the streamed artifact finishes successfully and cannot be read *)
+Theorem C19_full_gc_must_count_writers_refuted :
+  exists ops, let s := run toy_hash gen_collectable gen_min_created gen_rdec gen_rinc false gen_repair_counts_writers 4%nat 1500 init ops in
+    get s 0 = RErr E_CHUNKMISSING /\ sget (srun sinit ops) 0 = RBytes [0; 1; 2; 3; 4; 5; 6; 7].
+Proof. exists [OOpen; OWrite 0 [0; 1; 2; 3; 4; 5; 6; 7]; OFullGc; OFinish 0]. vm_compute. split; reflexivity. Qed.
+
 Print Assumptions C19_split_concat.
 Print Assumptions C19_split_sizes.
+Print Assumptions C19_reads_return_written.
+Print Assumptions C19_spec_put.
+Print Assumptions C19_spec_stream_any_partition.
+Print Assumptions C19_refcount_invariant.
+Print Assumptions C19_delete_leaves_others.
+Print Assumptions C19_collect_keeps_referenced.
+Print Assumptions C19_collect_preserves_reads.
+Print Assumptions C19_full_gc_empties.
+Print Assumptions C19_verify_reports_missing.
+Print Assumptions C19_verify_detects_alteration.
+Print Assumptions C19_full_gc_must_count_writers_refuted.
